@@ -129,6 +129,33 @@ func gramCases(j run.Job, yield func(c GCase)) {
 				yield(GCase{G: g, In: in, NT: 0, Fam: fam})
 			}
 		}
+	case "enum2":
+		// every pair of bodies with <= P[nodes] nodes each (N0 = shapes[i], N1 = shapes[k]), i in [Lo,Hi), x every input up to P[maxlen]
+		shapes := gram.Shapes2(j.Param("nodes", 3))
+		inputs := gram.AllInputs("ab", j.Param("maxlen", 3))
+		hi := j.Hi
+		if hi > len(shapes) || hi == 0 {
+			hi = len(shapes)
+		}
+		for i := j.Lo; i < hi; i++ {
+			for k := range shapes {
+				g := gram.New("ab", 2)
+				g.NTs[0] = shapes[i](g)
+				g.NTs[1] = shapes[k](g)
+				uses1 := false
+				gram.Walk(g.NTs[0], func(e *gram.Expr) {
+					if e.Op == gram.OpNT && e.NT == 1 {
+						uses1 = true
+					}
+				})
+				if !uses1 {
+					continue // N1 unreachable: covered by the single-nonterminal scope
+				}
+				for _, in := range inputs {
+					yield(GCase{G: g, In: in, NT: 0, Fam: "enum-2nt"})
+				}
+			}
+		}
 	case "sharing":
 		r := rand.New(rand.NewSource(j.Seed))
 		for gi := 0; gi < j.N; gi++ {
@@ -149,6 +176,20 @@ func gramCases(j run.Job, yield func(c GCase)) {
 			}
 		}
 	}
+}
+
+// enum2Jobs shards the two-nonterminal small scope
+func enum2Jobs(nodes, maxLen, shard int) []run.Job {
+	var jobs []run.Job
+	total := len(gram.Shapes2(nodes))
+	for lo := 0; lo < total; lo += shard {
+		hi := lo + shard
+		if hi > total {
+			hi = total
+		}
+		jobs = append(jobs, run.Job{Family: "enum2", Lo: lo, Hi: hi, P: map[string]int{"nodes": nodes, "maxlen": maxLen}})
+	}
+	return jobs
 }
 
 // enumJobs shards the small-scope enumeration
